@@ -2,11 +2,15 @@ package raft
 
 import (
 	"context";
+	"strconv";
+	"strings";
 
 	pb "github.com/marekgalovic/anndb/protobuf";
 
 	"github.com/golang/protobuf/proto";
 )
+
+const nodeAddressSnapshotPrefix string = "node-address/"
 
 // Shared group
 type sharedGroup struct {
@@ -60,6 +64,14 @@ func (this *sharedGroup) processSnapshot(data []byte) error {
 	}
 
 	for proxyName, proxySnapshot := range snapshot.GetProxySnapshots() {
+		if strings.HasPrefix(proxyName, nodeAddressSnapshotPrefix) {
+			nodeId, err := strconv.ParseUint(strings.TrimPrefix(proxyName, nodeAddressSnapshotPrefix), 10, 64)
+			if err != nil {
+				return err
+			}
+			this.group.transport.addNodeAddress(nodeId, string(proxySnapshot))
+			continue
+		}
 		proxy := this.proxies[proxyName]
 		if err := proxy.processSnapshotFn(proxySnapshot); err != nil {
 			return err
@@ -78,6 +90,13 @@ func (this *sharedGroup) snapshot() ([]byte, error) {
 				return nil, err
 			}
 		}
+	}
+
+	// The membership entries that carry the nodes' addresses are compacted away
+	// together with the rest of the log, so the address book is part of the
+	// snapshot.
+	for nodeId, address := range this.group.transport.clusterConn.Nodes() {
+		proxySnapshots[nodeAddressSnapshotPrefix + strconv.FormatUint(nodeId, 10)] = []byte(address)
 	}
 
 	return proto.Marshal(&pb.SharedGroupSnapshot{ProxySnapshots: proxySnapshots})
